@@ -73,6 +73,11 @@ Proof.
     - intros a [<- |Ha]; [split; [apply obj_of_set_avail; exact Ho|exact Hp_gone]|].
       destruct (s7 a Ha) as [O1 O2]. split; [apply obj_of_set_avail; assumption|].
       intros H. apply O2. eapply live_ptrs_remove_sub; eauto. }
+  assert (Hall : forall y, In y (upd_slab (sl_frame x) (fun _ => x') (slabs s)) ->
+                           slab_ok c k (map bk_p (remove_blk p (live s))) y).
+  { intros y Hy. apply Hin in Hy. destruct Hy as [[Hy Hne]| ->]; [|exact Sx'].
+    apply (slab_ok_lv c k (live_ptrs s)); [|apply (I_slab _ _ _ I y Hy)].
+    intros a _ Hn H. apply Hn. eapply live_ptrs_remove_sub; eauto. }
   constructor; cbn [slabs larges partial live used nlive peak free_small_state].
   - destruct (sl_avail x); [rewrite upd_nth_length|]; apply (I_len _ _ _ I).
   - rewrite map_upd_slab_const; [apply (I_frames _ _ _ I)|]. intros z _ Hz. cbn. congruence.
@@ -139,6 +144,23 @@ Proof.
     apply remove_blk_keeps; [assumption|]. rewrite E0. intros E.
     pose proof (lookup_large c F k s I y Hy) as L1. pose proof (lookup_obj c F k s I x p Hx Ho) as L2.
     rewrite E in L1. congruence.
+  - unfold pages, free_small_state. cbn [slabs larges]. rewrite map_upd_slab_const; [apply (I_used _ _ _ I)|].
+    intros z Hz Hzf. rewrite (slab_by_frame c k s I z x Hz Hx) by congruence. apply slab_pages_same. reflexivity.
+  - rewrite !upd_nth_length. apply (I_cnt_len _ _ _ I).
+  - intros i Hi'. destruct (I_foot _ _ _ I i Hi') as (E1 & E2 & E3). destruct (I_cnt_len _ _ _ I) as [L1 L2].
+    pose proof (sumN_upd_slab (g_free i) (sl_frame x) x x' (slabs s) Hnd Hx eq_refl) as U1.
+    pose proof (sumN_upd_slab (g_cnt i) (sl_frame x) x x' (slabs s) Hnd Hx eq_refl) as U2.
+    rewrite (g_cnt_same i x x') in U2 by reflexivity.
+    pose proof (cfree_le c k _ _ i Hall) as Q.
+    assert (G1 : g_free i x = if sl_idx x =? i then N.of_nat (length (sl_avail x)) else 0) by reflexivity.
+    assert (G2 : g_free i x' = if sl_idx x =? i then N.of_nat (S (length (sl_avail x))) else 0) by reflexivity.
+    pose proof (so_idx _ _ _ _ Sx) as Hidx.
+    unfold foot_ok, nlive_of, peak_of, cfree, cnum, free_small_state in *. cbn [slabs nlive peak]. fold x'.
+    destruct (N.eq_dec i (sl_idx x)) as [-> |Hne].
+    + rewrite (nth_upd_same_N (nlive s) (sl_idx x) _ 0 (nbuckets c) L1 Hidx).
+      rewrite N.eqb_refl in G1, G2. lia.
+    + rewrite !nth_upd_other_N by congruence.
+      assert (Q2 : (sl_idx x =? i) = false) by (apply N.eqb_neq; congruence). rewrite Q2 in G1, G2. lia.
 Qed.
 
 End FreeSmall.
@@ -194,6 +216,10 @@ Proof.
     pose proof (I_large_live _ _ _ I y Hy) as H. unfold live_ptrs in H. apply in_map_iff in H.
     destruct H as (b0 & E0 & H0). apply in_map_iff. exists b0. split; [assumption|].
     apply remove_blk_keeps; [assumption|]. rewrite E0, Hp. unfold lg_addr. lia.
+  - pose proof (sumN_remove_large (large_pages c) x (larges s) Hnd Hx) as U.
+    rewrite (I_used _ _ _ I). unfold pages. cbn [slabs larges]. unfold large_pages at 2 in U. lia.
+  - apply (I_cnt_len _ _ _ I).
+  - intros i Hi'. apply (I_foot _ _ _ I i Hi').
 Qed.
 
 End FreeLarge.
